@@ -2,7 +2,7 @@ SPECIFICATION Spec
 CONSTANTS
   SizesC <- SizesSmall
   NBC = 4
-  Times = {1, 2, 5, 17, 21, 61}
+  Times = {1, 4, 8, 17, 61}
   MaxOps = 4
   Repaired = TRUE
 INVARIANTS TotalOK WindowsOK RangeOK LatestOK
